@@ -20,9 +20,9 @@ Decided here -- the half of C19 that says "wherever the example is placed, any n
   (iii) multiplicity: `collect` appends once per matching node (ii); Python: `_collect_print_calls`,
        `_find_stateless_classes`, `_check_method` in c12_sites.py state "each match exactly once".
 
-Known finding C19-method-property-nested-class: PythonMethodAnalyzer._visit_node stops at every ClassDef and
-_analyze_class looks only at the class's DIRECT body items, so a class defined inside a method, or inside an `if` / `try`
-/ `with` block of a class body, is never analysed."""
+Repaired defect (fix: commit in /repo, see known_findings.json `fixed`): PythonMethodAnalyzer._visit_node used to stop at
+every ClassDef, so a class defined inside a method or inside an `if` / `try` / `with` block of a class body was never
+analysed; it now descends into the children of class definitions as well."""
 import ast
 import os
 
@@ -372,11 +372,6 @@ def c19_visitor_completeness(ctx):
                        "paths that return without recursing into the children, under guards: "
                        + "; ".join(sorted({" & ".join(sorted(g[2:] for g in e if g.startswith("G:"))) or "<none>" for e in bad})),
                        fn.lineno))
-        if target.endswith("method_property/python_analyzer.py::PythonMethodAnalyzer._visit_node"):
-            # finding-adjusted obligation (C19-method-property-nested-class): the ONLY pruning is at class definitions
-            only_at_class = all(any(g == f"G:isinstance({p}, ast.ClassDef)" for g in e) for e in bad)
-            obs.append(_ob(f"c19-visitor-completeness/walker-prunes-only-at-class-definitions:{target}", only_at_class,
-                           "every path that skips the children runs under isinstance(node, ast.ClassDef)", fn.lineno))
     if not obs:
         obs.append(_ob("c19-visitor-completeness/found-traversals", False, "no visitor class / recursive walker found"))
     return obs
